@@ -42,11 +42,12 @@ def run_case(case):
     signal.signal(signal.SIGVTALRM, _alarm)
     sys.unraisablehook = lambda *_a: None     # the watchdog may fire inside a context that swallows exceptions
     signal.setitimer(signal.ITIMER_VIRTUAL, 3.0, 1.0)
-    world = UdpclWorld(case['mtu'])
+    world = UdpclWorld(case['mtu'], polling_ms=case.get('polling_ms'))
     once = True
     try:
         xs = [world.request(bundle_like(n, k + case['salt'])) for (k, n) in enumerate(case['lengths'])]
-        world.pump_sender()
+        # (a polling sender never runs out of timers: a bounded stretch of virtual time is enough for the transfers)
+        world.pump_sender(**({'max_ms': case['pump_ms']} if case.get('polling_ms') else {}))
         order = case['order'](world)
         seen = set()
 
@@ -221,6 +222,14 @@ def executions(tier, seed):
         ]
         out.append({'lengths': [], 'mtu': None, 'salt': k, 'order': lambda w: [], 'composed': [comps[k % 4]],
                     'kind': 'composed'})
+    # a sender that also announces itself periodically (Sender Listen): its other messages go out through the
+    # same paced transmit path while transfer datagrams are waiting for their turn
+    for (k, (lengths, mtu, iv)) in enumerate([([2405], 300, 100), ([254], None, 15), ([900, 300], 120, 30),
+                                              ([5000], 200, 10), ([70], 34, 15), ([1200, 40, 600], 100, 25)]
+                                             + ([([20000], 500, 10), ([3000, 3000], 64, 40), ([65000], 1400, 20)]
+                                                if tier == 'thorough' else [])):
+        out.append({'lengths': lengths, 'mtu': mtu, 'salt': 40 + k, 'order': lambda w: list(range(len(w.pending))),
+                    'kind': 'polling-sender', 'polling_ms': iv, 'pump_ms': 4000})
     # MTU below the envelope (the sender cannot produce any segment)
     for mtu in ((5, 12) if tier == 'quick' else (1, 5, 12, 15, 16)):
         out.append({'lengths': [200], 'mtu': mtu, 'salt': 3, 'order': lambda w: list(range(len(w.pending))),
@@ -236,5 +245,5 @@ def executions(tier, seed):
     for c in out:
         traces.append(run_case(c))
         metas.append({'kind': c['kind'], 'lengths': c['lengths'], 'mtu': c['mtu'], 'foreign': bool(c.get('foreign')),
-                      'composed': [x[1] for x in c.get('composed', [])]})
+                      'composed': [x[1] for x in c.get('composed', [])], 'sender_polls_ms': c.get('polling_ms', 0)})
     return traces, metas
